@@ -12,6 +12,12 @@ B. tie: the model of the CURRENT policy vs the hooked binary:
    B4 windowed runs (plain file, -a placed at 10 %, 50 %, 90 % of the file): the model of
       Model/RetainSearch.v (block-zero analysis, binary search probes with their LRU caches, stage-3
       loop) must EQUAL the marks when the consumer keeps up, and bracket them otherwise.
+   B5 every kind of window: -b alone, -a -b on plain files (the driver stops at the first message
+      after B), and -a / -b / -a -b on streamed files (stage 2 = ONE linear search from the start
+      without drops: finding F9d) — equality when the consumer keeps up, bracket otherwise.
+   B6 the two Coq models of the stores, Model/Caches.v (WP-A, byte level) and Model/Retain.v, are
+      evaluated on the same layouts (Corr/C17a.v) and must report the same 8 figures: a re-check of
+      the theorem C17_caches_retain_agree on the inputs of this run.
 C. search, spec = the property: the same generated log grown x4 per step; a mark that keeps growing
    (linear-growth test on the three largest sizes) is a failing input.  Inside the known classes
    -> KNOWN-FINDING, outside -> VIOLATION.  The same with a window (-a at 10 / 50 / 90 %): the marks
@@ -106,8 +112,8 @@ def case_id(case):
 
 # ------------------------------------------------------------------ running the binary
 
-def run_bin(root, case, mode, idx, slow_us=300, plan=None, after=None):
-    """mode: 'lagfree' (H1 slow on every send) | 'free' | 'plan' (given S4_VERIF_PLAN).  after: value of -a.
+def run_bin(root, case, mode, idx, slow_us=300, plan=None, after=None, before=None):
+    """mode: 'lagfree' (H1 slow on every send) | 'free' | 'plan' (given S4_VERIF_PLAN).  after / before: values of -a / -b.
     returns summary dict or None"""
     name = "c17f%05d" % idx
     path = os.path.join(root, name + U.EXT[case["container"]])
@@ -123,7 +129,7 @@ def run_bin(root, case, mode, idx, slow_us=300, plan=None, after=None):
     t0 = time.time()
     try:
         pr = subprocess.run([vlib.S4_BIN, "--color", "never", "--summary", "--blocksz", str(case["bs"])] +
-                            (["-a", after] if after else []) + [path],
+                            (["-a", after] if after else []) + (["-b", before] if before else []) + [path],
                             env=env, stdout=subprocess.DEVNULL, stderr=subprocess.PIPE, timeout=900)
         s = U.parse_summary(pr.stderr)
         rc = pr.returncode
@@ -209,6 +215,107 @@ def model_rows_w(cases, H, workdir):
     return out, ""
 
 
+def model_rows_agree(cases, workdir):
+    """Corr.C17a.rows_agree: the cache state machine of Model/Caches.v and Model/Retain.v on the same layouts.
+    returns list of (caches 8-tuple, retain 8-tuple) or None"""
+    hdr = (vlib.COQ_PRINT_HDR + "From Coq Require Import List NArith Bool.\nImport ListNotations.\n"
+           "From S4.Corr Require Import C17a.\nOpen Scope N_scope.\n")
+    idx = list(range(len(cases)))
+    idx.sort(key=lambda i: -sum(l for l, _ in layout_of(cases[i])))
+    shards = [idx[i::vlib.NCPU] for i in range(min(vlib.NCPU, len(idx)))]
+    texts = []
+    for sh in shards:
+        rows = []
+        for i in sh:
+            c = cases[i]
+            if c.get("avoid_edges"):
+                pre, base, rep = layout_of(c), [], 0
+            else:
+                pre, base, rep = prefix_of(c), c["base"], c["mult"]
+            rows.append("(%s, %s, %d%%nat, %d)" % (coq_layout(pre), coq_layout(base), rep, c["bs"]))
+        texts.append(hdr + "Definition cases : list acase := [\n%s\n].\nEval vm_compute in (rows_agree cases).\n" % ";\n".join(rows))
+    res = vlib.coq_eval_shards(workdir, texts)
+    out = [None] * len(cases)
+    for sh, (rc, o) in zip(shards, res):
+        pairs = vlib.parse_eval_pairs(o) if rc == 0 else None
+        if pairs is None or len(pairs) != len(sh):
+            return None, o
+        for k, t in enumerate(pairs):
+            out[sh[k]] = (tuple(t[1:9]), tuple(t[9:17]))
+    return out, ""
+
+
+def model_rows_w2(cases, H, workdir):
+    """evaluate Corr.C17.rows_w2 (any window, any container; each case has "ta" / "tb" or None)"""
+    hdr = (vlib.COQ_PRINT_HDR + "From Coq Require Import List NArith Bool.\nImport ListNotations.\n"
+           "From S4.Model Require Import Retain.\nFrom S4.Corr Require Import C17.\nOpen Scope N_scope.\n")
+    idx = list(range(len(cases)))
+    idx.sort(key=lambda i: -len(cases[i]["base"]) * cases[i]["mult"])
+    shards = [idx[i::vlib.NCPU] for i in range(min(vlib.NCPU, len(idx)))]
+    texts = []
+    for sh in shards:
+        rows = []
+        for i in sh:
+            c = cases[i]
+            if c.get("avoid_edges"):
+                pre, base, rep = layout_of(c), [], 0
+            else:
+                pre, base, rep = prefix_of(c), c["base"], c["mult"]
+            rows.append("(%s, %s, %d%%nat, %d, %s, %d, %d, %d)" % (
+                coq_layout(pre), coq_layout(base), rep, c["bs"], "true" if c["container"] != "plain" else "false", H,
+                0 if c["ta"] is None else c["ta"] + 1, 0 if c["tb"] is None else c["tb"] + 1))
+        texts.append(hdr + "Definition cases : list w2case := [\n%s\n].\nEval vm_compute in (rows_w2 cases).\n" % ";\n".join(rows))
+    res = vlib.coq_eval_shards(workdir, texts)
+    out = [None] * len(cases)
+    for sh, (rc, o) in zip(shards, res):
+        pairs = vlib.parse_eval_pairs(o) if rc == 0 else None
+        if pairs is None or len(pairs) != len(sh):
+            return None, o
+        for k, t in enumerate(pairs):
+            out[sh[k]] = dict(messages=t[1], lo=(t[2], t[3], t[4]), hi=(t[5], t[6], t[7]), derr_lo=t[8], derr_hi=t[9],
+                              dlerr_lo=t[10], dlerr_hi=t[11], dok_lo=t[12])
+    return out, ""
+
+
+def sim_any(c, lag):
+    """python model of a run with any window: (blocks, lines, syslines high, drop_sysline err[, drop_line err])"""
+    lay = layout_of(c)
+    if c["container"] == "plain":
+        return U.sim_cur_w(lay, c["bs"], lag, c.get("ta"), c.get("tb"))
+    return U.sim_cur(lay, c["bs"], True, lag, c.get("ta"), c.get("tb"))
+
+
+def _simany_job(a):
+    """bracket of the model for a free schedule: plain files over every constant lag 1..H (not monotone under a
+    window), streamed files no lag .. lag H"""
+    c, H = a
+    lags = range(1, H + 1) if c["container"] == "plain" else (1, H)
+    rs = [sim_any(c, lag) for lag in lags]
+    return tuple(min(r[i] for r in rs) for i in range(3)), tuple(max(r[i] for r in rs) for i in range(3))
+
+
+def window_on_streamed_file(c):
+    """KNOWN-FINDING class F9d: streamed container AND -a given AND at least 8 messages before A"""
+    return c["container"] != "plain" and c.get("ta") is not None and c["ta"] >= 8
+
+
+def set_window(c, fa, fb):
+    """place -a at fa and -b at fb of the file (None: absent)"""
+    lay = layout_of(c)
+    ta = U.window_of(lay, fa) if fa is not None else (None, None)
+    tb = U.window_end_of(lay, fb) if fb is not None else (None, None)
+    if ta[0] is not None and tb[0] is not None and tb[0] < ta[0]:
+        tb = (ta[0], U.stamp("iso", ta[0]).decode())
+    c.update(ta=ta[0], tb=tb[0], after=ta[1], before=tb[1], fa=fa, fb=fb)
+    return c
+
+
+def expect_printed(c, nmsg):
+    lo = c["ta"] or 0
+    hi = c["tb"] if c["tb"] is not None else nmsg - 1
+    return max(0, hi - lo + 1)
+
+
 def _simw_job(a):
     """the windowed model at every constant consumer lag 1..H: (per-mark minimum, per-mark maximum).
     Under a window the marks are not monotone in the lag (a release that fails keeps find_line cache
@@ -270,7 +377,7 @@ def run(ctx):
         phase[name] = round(time.time() - tph[0], 1)
         tph[0] = time.time()
 
-    vlib.proof_stage(ctx, PROP_FILE, [], extra_targets=["Corr/C17.vo"])
+    vlib.proof_stage(ctx, PROP_FILE, [], extra_targets=["Corr/C17.vo", "Corr/C17a.vo"])
     ok, log = vlib.build_s4()
     if not ok:
         ctx.obligation_broken("build", "s4 binary", log)
@@ -435,6 +542,24 @@ def run(ctx):
                                   json.dumps(dict(container=c["container"], bs=c["bs"], impl=got, model=want)))
 
 
+
+    # ---------------------------------------------------------------- B6: the two models of what the readers keep
+    # Model/Caches.v (WP-A: cache state machine, byte level, summary() counters) vs Model/Retain.v on the plain B cases
+    acases = [c for c in bcases if c["container"] == "plain" and sum(l for l, _ in layout_of(c)) <= (15000 if quick else 40000)][:(14 if quick else 80)]
+    amodel, err = model_rows_agree(acases, os.path.join(CACHE, "cases", "C17", "A"))
+    b6_cmp = b6_dis = 0
+    if amodel is None:
+        ctx.obligation_broken("correspondence", "cross-model evaluation (coqc, Corr.C17a.rows_agree: Model/Caches.v vs Model/Retain.v)", err)
+    else:
+        bidx = dict((id(c), i) for i, c in enumerate(bcases))
+        for c, (ca, re_) in zip(acases, amodel):
+            b6_cmp += 1
+            mm = model[bidx[id(c)]]
+            if ca != re_ or tuple(re_[:3]) != tuple(mm["lo"]):
+                b6_dis += 1
+                if b6_dis <= 3:
+                    ctx.obligation_broken("correspondence", "Model/Caches.v (c_stream, plan of drop_data_try) vs Model/Retain.v (run, consumer keeps up): blocks/lines/syslines high, drop_sysline Ok/Err, stores at the end",
+                                          json.dumps(dict(kind=c["kind"], bs=c["bs"], mult=c["mult"], caches=ca, retain=re_, rows_wf=mm["lo"], base=c["base"][:80])))
     mark_phase("B1-B3")
     # ---------------------------------------------------------------- B4: windowed runs (plain, -a)
     wcases = []
@@ -536,7 +661,102 @@ def run(ctx):
                                       json.dumps(dict(kind=c["kind"], bs=c["bs"], mult=c["mult"], after=c["after"], plan=pl,
                                                       impl=got, model_min=blo, model_max=bhi, slack=sl, drop_sysline_err=s["drop_sysline_err"])))
 
+
     mark_phase("B4 windowed")
+    # ---------------------------------------------------------------- B5: every kind of window
+    # plain: -b, -a -b; streamed: -a (finding F9d: the linear search stores everything before A), -b, -a -b
+    w2cases = []
+    streamed_c = [x for x in containers if x != "plain"]
+    k5 = 0
+    for kind, bs in (("short", 64), ("multi", 256), ("safe", 4096), ("long", 128), ("edgey", 512), ("longline", 1024)) if quick else \
+            tuple((k, b) for k in ("short", "multi", "safe", "long", "edgey", "longline", "aligned") for b in ((64, 1024) if k != "safe" else (4096, 16384))):
+        base = gen_base(rng, kind, bs, rng.randrange(60, 220))
+        for cont, modes in (("plain", ("b", "ab")), (streamed_c[k5 % len(streamed_c)], ("a", "b", "ab"))):
+            for mode in modes:
+                c = dict(kind=kind, bs=bs, container=cont, base=base, mult=rng.choice([1, 2]), mode=mode,
+                         avoid_edges=(kind in ("safe", "longline")))
+                fa = rng.choice([0.1, 0.5, 0.9]) if "a" in mode else None
+                fb = None
+                if "b" in mode:
+                    fb = rng.choice([0.3, 0.7, 0.95]) if fa is None else min(0.99, fa + rng.choice([0.05, 0.2, 0.4]))
+                w2cases.append(set_window(c, fa, fb))
+        k5 += 1
+    w2model, err = model_rows_w2(w2cases, H, os.path.join(CACHE, "cases", "C17", "W2"))
+    if w2model is None:
+        ctx.obligation_broken("correspondence", "model evaluation of the general-window cases (coqc, Corr.C17.rows_w2)", err)
+        w2model, w2cases = [], []
+    for c, m in zip(w2cases, w2model):
+        s_lo, s_hi = sim_any(c, 1), sim_any(c, H)
+        coq_lo = tuple(m["lo"]) + (m["derr_lo"],) + ((m["dlerr_lo"],) if c["container"] == "plain" else ())
+        coq_hi = tuple(m["hi"]) + (m["derr_hi"],) + ((m["dlerr_hi"],) if c["container"] == "plain" else ())
+        if s_lo != coq_lo or s_hi != coq_hi:
+            ctx.obligation_broken("correspondence", "python transliteration (c17_util.WindowSim / sim_cur with a window) vs Coq w_run2 / sw_run",
+                                  json.dumps(dict(kind=c["kind"], bs=c["bs"], container=c["container"], ta=c["ta"], tb=c["tb"], sim_lo=s_lo, sim_hi=s_hi, coq=m)))
+            break
+
+    def b5(ic):
+        i, c = ic
+        m = w2model[i]
+        s = run_bin(root, c, "lagfree", 700000 + i, slow_us=250, after=c["after"], before=c["before"])
+        if s is not None and s["drop_sysline_err"] != m["derr_lo"]:
+            s = run_bin(root, c, "lagfree", 720000 + i, slow_us=2500, after=c["after"], before=c["before"])
+        return s
+
+    def b5free(ic):
+        i, c = ic
+        pl = plans[i % len(plans)]
+        if pl is None:
+            return run_bin(root, c, "free", 740000 + i, after=c["after"], before=c["before"]), None
+        pl = pl % (ctx.seed + i)
+        return run_bin(root, c, "plan", 740000 + i, plan=pl, after=c["after"], before=c["before"]), pl
+
+    with ProcessPoolExecutor(max_workers=max(2, vlib.NCPU // 2)) as pex:
+        w5_futs = [pex.submit(_simany_job, (c, H)) for c in w2cases]
+        with ThreadPoolExecutor(max_workers=vlib.NCPU) as ex:
+            r5 = list(ex.map(b5, enumerate(w2cases)))
+        with ThreadPoolExecutor(max_workers=vlib.NCPU) as ex:
+            r5f = list(ex.map(b5free, enumerate(w2cases)))
+        w5_brackets = [f.result() for f in w5_futs]
+    b5_cmp = b5_dis = b5_lagged = b5f_cmp = b5f_dis = 0
+    b5_hist = {}
+    for c, m, s in zip(w2cases, w2model, r5):
+        desc = dict(kind=c["kind"], bs=c["bs"], container=c["container"], mult=c["mult"], after=c["after"], before=c["before"], ta=c["ta"], tb=c["tb"],
+                    avoid_edges=c.get("avoid_edges", False), base=c["base"] if len(c["base"]) <= 120 else c["base"][:120] + ["..."])
+        if s is None:
+            ctx.obligation_broken("correspondence", "s4 --summary could not be parsed / run failed (window -a/-b, lag-free run)", json.dumps(desc))
+            continue
+        if s["printed_syslines"] != expect_printed(c, m["messages"]):
+            ctx.obligation_broken("correspondence", "window -a/-b: messages printed vs messages inside the window",
+                                  json.dumps(dict(case=desc, printed=s["printed_syslines"], expected=expect_printed(c, m["messages"]))))
+            continue
+        if s["drop_sysline_err"] != m["derr_lo"]:
+            b5_lagged += 1
+            continue
+        b5_cmp += 1
+        hk = "%s/%s" % ("plain" if c["container"] == "plain" else "streamed", c["mode"])
+        b5_hist[hk] = b5_hist.get(hk, 0) + 1
+        got = tuple(s[k] for k in MARKS) + ((s["drop_line_err"],) if c["container"] == "plain" else ())
+        want = tuple(m["lo"]) + ((m["dlerr_lo"],) if c["container"] == "plain" else ())
+        if got != want:
+            b5_dis += 1
+            if b5_dis <= 3:
+                ctx.obligation_broken("correspondence", "--summary marks of a run with a window (-a / -b, plain or streamed; consumer keeps up) vs Model.RetainSearch w_run2 / sw_run",
+                                      json.dumps(dict(case=desc, impl=got, model=want, summary=s)))
+    if w2cases and b5_lagged > max(3, len(w2cases) // 3):
+        ctx.obligation_broken("correspondence", "could not force the lag-free schedule in the window runs (%d of %d)" % (b5_lagged, len(w2cases)), "")
+    for c, m, (s, pl), (blo, bhi) in zip(w2cases, w2model, r5f, w5_brackets):
+        if s is None or s["printed_syslines"] != expect_printed(c, m["messages"]):
+            continue
+        b5f_cmp += 1
+        got = tuple(s[k] for k in MARKS)
+        sl = w_slack(layout_of(c), c["bs"]) if c["container"] == "plain" else (0, 0, 0)
+        if not all(lo - d <= g <= hi + d for lo, g, hi, d in zip(blo, got, bhi, sl)):
+            b5f_dis += 1
+            if b5f_dis <= 3:
+                ctx.obligation_broken("correspondence", "--summary marks of a run with a window (free schedule) outside the bracket of the model",
+                                      json.dumps(dict(kind=c["kind"], bs=c["bs"], container=c["container"], after=c["after"], before=c["before"], plan=pl,
+                                                      impl=got, model_min=blo, model_max=bhi, slack=sl, drop_sysline_err=s["drop_sysline_err"])))
+    mark_phase("B5 windows")
     # ---------------------------------------------------------------- C: growth search
     mults = [1, 4, 16, 64] if quick else [1, 4, 16, 64, 256]
     configs = []
@@ -669,7 +889,8 @@ def run(ctx):
 
 
     mark_phase("C")
-    # ---------------------------------------------------------------- C, windowed: growth under a window (plain files)
+    # ---------------------------------------------------------------- C, windowed: growth under a window
+    # plain files with -a at 10 / 50 / 90 %; and -b, -a -b, and windows on streamed files
     wconfigs = []
     wck = ["safe", "short", "safe", "multi", "edgey", "long", "longline", "safe", "aligned"]
     for i in range(6 if quick else 18):
@@ -687,20 +908,28 @@ def run(ctx):
         nm = int(max(24, min(6 * bs / avg, 1200 if quick else 2500)))
         wconfigs.append(dict(kind=kind, bs=bs, container="plain", base=gen_base(rng, kind, bs, nm),
                              avoid_edges=(kind in ("safe", "longline"))))
+    wlist = [(cf, frac, None) for cf in wconfigs for frac in (0.1, 0.5, 0.9)]
+    # other windows, on logs outside the classes F9a / F9b (block large relative to the lines, edges avoided)
+    xs = [("gz", 0.9, None), (streamed_c[1 % len(streamed_c)], 0.5, None), ("plain", None, 0.6), ("gz", None, 0.6),
+          ("plain", 0.3, 0.8), (streamed_c[-1], 0.3, 0.8)]
+    if not quick:
+        xs += [(cont, fa, fb) for cont in containers for (fa, fb) in ((0.9, None), (None, 0.9), (0.1, 0.5), (0.5, 0.95))]
+    for cont, fa, fb in xs:
+        xbs = rng.choice([4096, 8192])
+        wlist.append((dict(kind="safe", bs=xbs, container=cont, avoid_edges=True,
+                           base=gen_base(rng, "safe", xbs, int(6 * xbs / 120))), fa, fb))
     wjobs = []
-    for ci, cf in enumerate(wconfigs):
-        for frac in (0.1, 0.5, 0.9):
-            for mu in mults:
-                c = dict(cf)
-                c["mult"] = mu
-                c["frac"] = frac
-                c["t"], c["after"] = U.window_of(layout_of(c), frac)
-                wjobs.append((ci, frac, mu, c))
-    wj_sorted = sorted(range(len(wjobs)), key=lambda k: -len(wjobs[k][3]["base"]) * wjobs[k][2])
+    for wi, (cf, fa, fb) in enumerate(wlist):
+        for mu in mults:
+            c = dict(cf)
+            c["mult"] = mu
+            wjobs.append((wi, mu, set_window(c, fa, fb)))
+    wj_sorted = sorted(range(len(wjobs)), key=lambda k: -len(wjobs[k][2]["base"]) * wjobs[k][1])
     with ProcessPoolExecutor(max_workers=max(2, vlib.NCPU // 2)) as pex:
-        wsim_futs = [pex.submit(_simw_job, (wjobs[k][3], H)) for k in wj_sorted]
+        wsim_futs = [pex.submit(_simany_job, (wjobs[k][2], H)) for k in wj_sorted]
         with ThreadPoolExecutor(max_workers=max(2, vlib.NCPU // 2)) as ex:
-            wres_sorted = list(ex.map(lambda k: run_bin(root, wjobs[k][3], "free", 600000 + k, after=wjobs[k][3]["after"]), wj_sorted))
+            wres_sorted = list(ex.map(lambda k: run_bin(root, wjobs[k][2], "free", 600000 + k, after=wjobs[k][2]["after"],
+                                                        before=wjobs[k][2]["before"]), wj_sorted))
         wsims_sorted = [f.result() for f in wsim_futs]
     wres = [None] * len(wjobs)
     wsims_all = [None] * len(wjobs)
@@ -710,79 +939,90 @@ def run(ctx):
     cw_growing = cw_flat = cw_rejected = cw_interval_cmp = cw_interval_bad = 0
     cw_safe_flat = cw_safe_total = 0
     cw_log_samples = []
-    for ci, cf in enumerate(wconfigs):
-        for frac in (0.1, 0.5, 0.9):
-            ks = [k for k, j in enumerate(wjobs) if j[0] == ci and j[1] == frac]
-            rs = [wres[k] for k in ks]
-            sims = [wsims_all[k] for k in ks]
-            cs = [wjobs[k][3] for k in ks]
-            desc0 = dict(kind=cf["kind"], bs=cf["bs"], container="plain", notation="iso", avoid_edges=cf.get("avoid_edges", False),
-                         after_frac=frac)
-            if any(r is None for r in rs) or any(r["printed_syslines"] != r["messages"] - c["t"] for r, c in zip(rs, cs)):
-                if any(r is None or r["rc"] not in (0,) for r in rs):
-                    ctx.failure(dict(desc0, base=cf["base"][:200], mults=mults), "a windowed run that ends with a summary", "run failed / hang", [])
-                else:
-                    ctx.obligation_broken("correspondence", "windowed run (search C): messages printed vs messages at or after the window start",
-                                          json.dumps(dict(desc0, printed=[r["printed_syslines"] for r in rs], expected=[r["messages"] - c["t"] for r, c in zip(rs, cs)])))
-                cw_rejected += 1
-                continue
-            big = layout_of(cs[-1])
-            in_lag = U.consumer_lag_exceeds_drop_distance(big, cf["bs"], H)
-            in_edge = U.line_ends_on_block_edge(big, cf["bs"], "plain")
-            if not (in_lag or in_edge):
-                cw_safe_total += 1
-            for mu, r, (lo, hi), cc in zip(mults, rs, sims, cs):
-                cw_interval_cmp += 1
-                got = tuple(r[k] for k in MARKS)
-                sl = w_slack(layout_of(cc), cf["bs"])
-                if not all(a - d <= g <= b + d for a, g, b, d in zip(lo[:3], got, hi[:3], sl)):
-                    cw_interval_bad += 1
-                    if cw_interval_bad <= 3:
-                        ctx.obligation_broken("correspondence", "--summary marks of a WINDOWED run (search C) outside the bracket of the model over the consumer lags 1..cap+2",
-                                              json.dumps(dict(desc0, mult=mu, impl=got, model_min=lo[:3], model_max=hi[:3], slack=sl)))
-            anyg = False
-            msp = U.msg_spans(big, cf["bs"])
-            span = max(b - a + 1 for a, b in msp)
-            ml = max(z - a + 1 for a, z in U.messages(big))
-            units = dict(blocks_high=2 * span + 1, lines_high=ml + 1, syslines_high=1)
-            for mi, mk in enumerate(MARKS):
-                vals = [r[mk] for r in rs]
-                if grows_w(vals, units[mk]):
-                    anyg = True
-                    classes = []
-                    if all(r[mk] <= hi[mi] for r, (lo, hi) in zip(rs, sims)):
-                        if mk == "lines_high" and in_lag:
-                            classes.append("consumer_lag_exceeds_drop_distance")
-                        if mk == "blocks_high":
-                            if in_edge:
-                                classes.append("line_ends_on_block_edge")
-                            if in_lag:
-                                classes.append("consumer_lag_exceeds_drop_distance")
-                    case = dict(desc0, mults=mults, mark=mk, base=cf["base"], prefix=prefix_of(cf), unit=units[mk],
-                                model_maxlag=[hi[mi] for (lo, hi) in sims],
-                                drop_sysline_err=[r["drop_sysline_err"] for r in rs], sizes_messages=[r["messages"] for r in rs])
-                    ctx.failure(case, "%s under a window grows at most with the logarithm of the file size" % mk,
-                                "grows linearly: %s at sizes x%s (-a at %d %% of the file)" % (vals, mults, int(frac * 100)), classes)
-                    if len(growth_samples) < 12:
-                        growth_samples.append(dict(desc0, mark=mk, values=vals, classes=classes))
-            if anyg:
-                cw_growing += 1
+    cw_hist = {}
+    for wi, (cf, fa, fb) in enumerate(wlist):
+        ks = [k for k, j in enumerate(wjobs) if j[0] == wi]
+        rs = [wres[k] for k in ks]
+        sims = [wsims_all[k] for k in ks]
+        cs = [wjobs[k][2] for k in ks]
+        plain = cf["container"] == "plain"
+        desc0 = dict(kind=cf["kind"], bs=cf["bs"], container=cf["container"], notation="iso", avoid_edges=cf.get("avoid_edges", False),
+                     after_frac=fa, before_frac=fb)
+        hk = "%s/%s%s" % ("plain" if plain else "streamed", "a" if fa is not None else "", "b" if fb is not None else "")
+        cw_hist[hk] = cw_hist.get(hk, 0) + 1
+        if any(r is None for r in rs) or any(r["printed_syslines"] != expect_printed(c, r["messages"]) for r, c in zip(rs, cs)):
+            if any(r is None or r["rc"] not in (0,) for r in rs):
+                ctx.failure(dict(desc0, base=cf["base"][:200], mults=mults), "a windowed run that ends with a summary", "run failed / hang", [])
             else:
-                cw_flat += 1
-                if not (in_lag or in_edge):
-                    cw_safe_flat += 1
-                    if len(cw_log_samples) < 4:
-                        cw_log_samples.append(dict(desc0, blocks_high=[r["blocks_high"] for r in rs], lines_high=[r["lines_high"] for r in rs],
-                                                   syslines_high=[r["syslines_high"] for r in rs], sizes_messages=[r["messages"] for r in rs]))
+                ctx.obligation_broken("correspondence", "windowed run (search C): messages printed vs messages inside the window",
+                                      json.dumps(dict(desc0, printed=[r["printed_syslines"] for r in rs],
+                                                      expected=[expect_printed(c, r["messages"]) for r, c in zip(rs, cs)])))
+            cw_rejected += 1
+            continue
+        big = layout_of(cs[-1])
+        in_lag = U.consumer_lag_exceeds_drop_distance(big, cf["bs"], H)
+        in_edge = U.line_ends_on_block_edge(big, cf["bs"], cf["container"])
+        in_f9d = window_on_streamed_file(cs[-1])        # -a on a streamed file: the linear search stores everything before A
+        if not (in_lag or in_edge or in_f9d):
+            cw_safe_total += 1
+        for mu, r, (lo, hi), cc in zip(mults, rs, sims, cs):
+            cw_interval_cmp += 1
+            got = tuple(r[k] for k in MARKS)
+            sl = w_slack(layout_of(cc), cf["bs"]) if plain else (0, 0, 0)
+            if not all(a - d <= g <= b + d for a, g, b, d in zip(lo[:3], got, hi[:3], sl)):
+                cw_interval_bad += 1
+                if cw_interval_bad <= 3:
+                    ctx.obligation_broken("correspondence", "--summary marks of a WINDOWED run (search C) outside the bracket of the model over the consumer lags 1..cap+2",
+                                          json.dumps(dict(desc0, mult=mu, impl=got, model_min=lo[:3], model_max=hi[:3], slack=sl)))
+        anyg = False
+        msp = U.msg_spans(big, cf["bs"])
+        span = max(b - a + 1 for a, b in msp)
+        ml = max(z - a + 1 for a, z in U.messages(big))
+        units = dict(blocks_high=2 * span + 1, lines_high=ml + 1, syslines_high=1)
+        for mi, mk in enumerate(MARKS):
+            vals = [r[mk] for r in rs]
+            # the logarithmic allowance only exists where the reader searches: a plain file with -a
+            g = grows_w(vals, units[mk]) if (plain and fa is not None) else grows(vals)
+            if g:
+                anyg = True
+                classes = []
+                if all(r[mk] <= hi[mi] for r, (lo, hi) in zip(rs, sims)):
+                    if in_f9d and mk in ("lines_high", "syslines_high"):
+                        classes.append("window_on_streamed_file")
+                    if mk == "lines_high" and in_lag:
+                        classes.append("consumer_lag_exceeds_drop_distance")
+                    if mk == "blocks_high" and plain:
+                        if in_edge:
+                            classes.append("line_ends_on_block_edge")
+                        if in_lag:
+                            classes.append("consumer_lag_exceeds_drop_distance")
+                case = dict(desc0, mults=mults, mark=mk, base=cf["base"], prefix=prefix_of(cf), unit=units[mk],
+                            model_maxlag=[hi[mi] for (lo, hi) in sims],
+                            drop_sysline_err=[r["drop_sysline_err"] for r in rs], sizes_messages=[r["messages"] for r in rs])
+                what = ("%s under a window grows at most with the logarithm of the file size" % mk) if (plain and fa is not None) \
+                    else ("%s independent of the file size (window%s%s)" % (mk, " -a" if fa is not None else "", " -b" if fb is not None else ""))
+                ctx.failure(case, what, "grows linearly: %s at sizes x%s (-a at %s, -b at %s of the file)" % (vals, mults, fa, fb), classes)
+                if len(growth_samples) < 14:
+                    growth_samples.append(dict(desc0, mark=mk, values=vals, classes=classes))
+        if anyg:
+            cw_growing += 1
+        else:
+            cw_flat += 1
+            if not (in_lag or in_edge or in_f9d):
+                cw_safe_flat += 1
+                if len(cw_log_samples) < 5:
+                    cw_log_samples.append(dict(desc0, blocks_high=[r["blocks_high"] for r in rs], lines_high=[r["lines_high"] for r in rs],
+                                               syslines_high=[r["syslines_high"] for r in rs], sizes_messages=[r["messages"] for r in rs]))
 
     mark_phase("C windowed")
     # ---------------------------------------------------------------- evidence
     allruns = [r for r in r1 if r] + [r for r, _ in r2 if r] + [r for r in r3 if r] + [r for r in cres if r] + \
-        [r for r in r4 if r] + [r for r, _ in r4f if r] + [r for r in wres if r]
+        [r for r in r4 if r] + [r for r, _ in r4f if r] + [r for r in wres if r] + [r for r in r5 if r] + [r for r, _ in r5f if r]
     distinct = len(set((case_id(c), "lf") for c in bcases)) + len(set((case_id(c), "free") for c in bcases)) + \
         len(set(case_id(j[2]) for j in jobs)) + \
         len(set((case_id(c), c["frac"], "wlf") for c in wcases)) + len(set((case_id(c), c["frac"], "wfree") for c in wcases)) + \
-        len(set((case_id(j[3]), j[1]) for j in wjobs))
+        len(set((case_id(j[2]), j[2]["fa"], j[2]["fb"]) for j in wjobs)) + \
+        len(set((case_id(c), c["fa"], c["fb"], m) for c in w2cases for m in ("lf", "free")))
     hist_c = {}
     for c in bcases + [j[2] for j in jobs]:
         k = "%s/%s" % (c["container"], c["kind"])
@@ -807,13 +1047,20 @@ def run(ctx):
         C_domain_histogram=domain_hist, C_outside_known_classes_flat="%d of %d" % (c_safe_flat, c_safe_total),
         C_growth_samples=growth_samples, C_interval_compared=c_interval_cmp, C_outside_interval=c_interval_bad,
         B3_yearless_compared=b3_cmp, phase_seconds=phase,
+        B6_caches_vs_retain_compared=b6_cmp, B6_caches_vs_retain_disagreements=b6_dis,
         B4_windowed_exact_compared=b4_cmp, B4_windowed_disagreements=b4_dis, B4_windowed_not_lagfree=b4_lagged,
         B4_windowed_interval_compared=b4f_cmp, B4_windowed_outside_interval=b4f_dis,
         B4_windowed_samples=[dict(kind=c["kind"], bs=c["bs"], mult=c["mult"], after=c["after"], t=c["t"], messages=m["messages"],
                                   impl_lagfree=[s[k] for k in MARKS] + [s["drop_sysline_err"], s["drop_line_err"]] if s else None,
                                   model_nolag=list(m["lo"]) + [m["derr_lo"], m["dlerr_lo"]], model_maxlag=list(m["hi"]))
                              for c, m, s in list(zip(wcases, wmodel, r4))[:4]],
-        Cw_configs=len(wconfigs), Cw_window_positions=[0.1, 0.5, 0.9], Cw_growing=cw_growing, Cw_flat=cw_flat, Cw_rejected=cw_rejected,
+        B5_window_exact_compared=b5_cmp, B5_window_disagreements=b5_dis, B5_window_not_lagfree=b5_lagged,
+        B5_window_interval_compared=b5f_cmp, B5_window_outside_interval=b5f_dis, B5_window_kinds=b5_hist,
+        B5_window_samples=[dict(kind=c["kind"], bs=c["bs"], container=c["container"], after=c["after"], before=c["before"], messages=m["messages"],
+                                impl_lagfree=[s[k] for k in MARKS] + [s["drop_sysline_err"]] if s else None,
+                                model_nolag=list(m["lo"]) + [m["derr_lo"]], model_maxlag=list(m["hi"]))
+                           for c, m, s in list(zip(w2cases, w2model, r5))[:5]],
+        Cw_configs=len(wlist), Cw_window_kinds=cw_hist, Cw_growing=cw_growing, Cw_flat=cw_flat, Cw_rejected=cw_rejected,
         Cw_outside_known_classes_flat="%d of %d" % (cw_safe_flat, cw_safe_total), Cw_interval_compared=cw_interval_cmp,
         Cw_outside_interval=cw_interval_bad, Cw_logarithmic_samples=cw_log_samples,
         notation_histogram=dict((nt, sum(1 for c in bcases + ycases + [j[2] for j in jobs] if c.get("notation", "iso") == nt)) for nt in U.NOTATIONS),
@@ -824,7 +1071,8 @@ def run(ctx):
         "the property is phrased on the --summary marks (entries of BlockReader.blocks / LineReader.lines / SyslineReader.syslines); real heap use, the allocator, and the index maps that are never pruned (syslines_by_range, foend_to_fobeg, blocks_read) are not measured",
         "hook H1 (S4_VERIF_PLAN slow=) makes the consumer keep up; a run counts as lag-free only if the summary reports drop_sysline Err 0",
         "Model/Retain.v is a hand transcription of exec_syslogprocessor / drop_data_try / drop_data / drop_sysline / drop_line / drop_block and of the streamed look-behind drop; tied only by run B",
-        "windowed runs: the block-zero analysis is represented by its residue (1 line + 1 message, or 3 lines + 2 messages from 8096-byte blocks on) for files whose first lines lie inside block zero; message k is stamped with the instant k; only -a (no -b) windows on plain files are generated",
+        "windowed runs: the block-zero analysis is represented by its residue (1 line + 1 message, or 3 lines + 2 messages from 8096-byte blocks on) for files whose first lines lie inside block zero; message k is stamped with the instant k; windows -a, -b and -a -b are generated on plain files (binary search) and on gz / bz2 / lz4 files (linear search)",
+        "Model/Caches.v (WP-A) and Model/Retain.v are tied to the binary separately (C02c / C17); that they agree on a plain file whose consumer keeps up is a theorem for every layout (C17_caches_retain_agree), re-evaluated by B6 on layouts of this run",
         "wfb is still evaluated on every generated layout (now a cross-check of C17_layout_msgs_wf, which proves it for all layouts)"]
     shutil.rmtree(root, ignore_errors=True)
     return ctx.finish()
@@ -850,33 +1098,39 @@ def replay(ctx, path):
         for k, mu in enumerate(c["mults"]):
             cc = dict(bs=c["bs"], container=c["container"], base=base, mult=mu, avoid_edges=c.get("avoid_edges", False),
                       prefix=c.get("prefix", PREFIX), notation=nt)
-            frac = c.get("after_frac")
-            if frac is not None:
-                tw, after = U.window_of(layout_of(cc), frac)
-                s = run_bin(root, cc, "free", 900000 + k, after=after)
+            fa, fb = c.get("after_frac"), c.get("before_frac")
+            windowed = fa is not None or fb is not None
+            if windowed:
+                set_window(cc, fa, fb)
+                s = run_bin(root, cc, "free", 900000 + k, after=cc["after"], before=cc["before"])
             else:
                 s = run_bin(root, cc, "free", 900000 + k)
             vals.append(s[mk] if s else None)
             if s and nt != "yearless":
-                if frac is not None:
-                    hi = _simw_job((dict(cc, t=tw), H))[1]
+                if windowed:
+                    hi = _simany_job((cc, H))[1]
                 else:
                     hi = U.sim_cur(layout_of(cc), c["bs"], c["container"] != "plain", H)
                 explained = explained and s[mk] <= hi[mi]
-        g = None not in vals and (grows_w(vals, c.get("unit", 1)) if c.get("after_frac") is not None else grows(vals))
+        g = None not in vals and (grows_w(vals, c.get("unit", 1)) if (c.get("after_frac") is not None and c["container"] == "plain") else grows(vals))
         lay = layout_of(dict(bs=c["bs"], container=c["container"], base=base, mult=c["mults"][-1], avoid_edges=c.get("avoid_edges", False),
                              prefix=c.get("prefix", PREFIX)))
         classes = []
         if nt == "yearless":
             classes.append("yearless_notation")
         elif explained:
+            if c.get("after_frac") is not None and mk in ("lines_high", "syslines_high") and \
+                    window_on_streamed_file(set_window(dict(bs=c["bs"], container=c["container"], base=base, mult=c["mults"][-1],
+                                                            avoid_edges=c.get("avoid_edges", False), prefix=c.get("prefix", PREFIX)),
+                                                       c.get("after_frac"), c.get("before_frac"))):
+                classes.append("window_on_streamed_file")
             if U.consumer_lag_exceeds_drop_distance(lay, c["bs"], H) and (mk == "lines_high" or (mk == "blocks_high" and c["container"] == "plain")):
                 classes.append("consumer_lag_exceeds_drop_distance")
             if U.line_ends_on_block_edge(lay, c["bs"], c["container"]) and mk == "blocks_high":
                 classes.append("line_ends_on_block_edge")
         covered = bool(set(classes) & known)
         print("replay %s bs=%d %s %s%s mark=%s sizes x%s -> %s  grows=%s within-model-of-known-findings=%s classes=%s (recorded: %s)"
-              % (c["kind"], c["bs"], c["container"], nt, (" -a at %d%%" % int(c["after_frac"] * 100)) if c.get("after_frac") is not None else "",
+              % (c["kind"], c["bs"], c["container"], nt, (" -a at %s -b at %s" % (c.get("after_frac"), c.get("before_frac"))) if (c.get("after_frac") is not None or c.get("before_frac") is not None) else "",
                  mk, c["mults"], vals, g, explained, classes, f["got"]))
         if g and not covered:
             print("VIOLATION property=C17 replay=%s" % path)
